@@ -8,6 +8,7 @@ import (
 	"sort"
 	"strings"
 	"sync"
+	"sync/atomic"
 	"time"
 
 	"github.com/pingcap/kvproto/pkg/errorpb"
@@ -107,6 +108,8 @@ type monitor struct {
 	fields     map[string]int // "Cmd.path" -> occurrences on the wire
 	respFields map[string]int
 	universe   [3]map[string]bool
+	inflight   atomic.Int64
+	lastSubmit atomic.Int64
 }
 
 func newMonitor(w *world) *monitor {
@@ -354,14 +357,42 @@ func (t *wireTap) hop(req *tikvrpc.Request) {
 	}
 }
 
+// enter / leave keep the count of requests in flight from clients that are alive (what a dead
+// client still tries to send exists for nobody and must not influence when the world is quiet).
+func (t *wireTap) enter(req *tikvrpc.Request) bool {
+	if req.Type == tikvrpc.CmdStoreSafeTS || t.mon.w.net.IsCut(t.client) {
+		return false
+	}
+	t.mon.inflight.Add(1)
+	t.mon.lastSubmit.Store(int64(t.mon.w.sim.Now()))
+	return true
+}
+
+func (t *wireTap) leave(counted bool) {
+	if counted {
+		t.mon.inflight.Add(-1)
+	}
+}
+
 func (t *wireTap) SendRequest(ctx context.Context, addr string, req *tikvrpc.Request, timeout time.Duration) (*tikvrpc.Response, error) {
 	t.hop(req)
+	defer t.leave(t.enter(req))
 	return t.Client.SendRequest(ctx, addr, req, timeout)
 }
 
 func (t *wireTap) SendRequestAsync(ctx context.Context, addr string, req *tikvrpc.Request, cb async.Callback[*tikvrpc.Response]) {
 	t.hop(req)
+	counted := t.enter(req)
+	cb.Inject(func(resp *tikvrpc.Response, err error) (*tikvrpc.Response, error) {
+		t.leave(counted)
+		return resp, err
+	})
 	t.Client.SendRequestAsync(ctx, addr, req, cb)
+}
+
+// quiet: no request of a live client is in flight and none was submitted during the last d.
+func (m *monitor) quiet(d time.Duration) bool {
+	return m.inflight.Load() == 0 && m.w.sim.Now()-time.Duration(m.lastSubmit.Load()) >= d
 }
 
 type apiTap struct {
